@@ -18,3 +18,5 @@ mod ringbuffer;
 pub(crate) mod scratch;
 pub(crate) mod sequence_execution;
 pub(crate) mod sequence_section_decoder;
+#[cfg(feature = "verif_hooks")]
+pub mod verif_dec;
